@@ -14,6 +14,7 @@ import RosuModel.Model.SuspicionWire
 import RosuModel.Model.StackingWire
 import RosuModel.Model.LifeWire
 import RosuModel.Model.FiniteWire
+import RosuModel.Model.SliderEventsWire
 
 open Rosu
 
@@ -62,6 +63,10 @@ def handle (line : String) : String :=
   | ["LIFE", mode, objs, sig, hist] => Lifetime.handleLife mode objs sig hist
   | "GSQ" :: mode :: args => GenState.handleGSQ mode args
   | "C09" :: args => Finite.handleFinite args
+  | ["SLEV", st, sd, v, td, tot, sp] => SliderEvents.handleSLEV st sd v td tot sp
+  | ["OSLD", v, sm, tr, sl] => SliderEvents.handleOSLD v sm tr sl
+  | ["JUICE", v, sm, tr, objs] => SliderEvents.handleJUICE v sm tr objs
+  | ["ONER", mode, v, sm, tr, objs, take] => SliderEvents.handleONER mode v sm tr objs take
   | _ => "bad-op"
 
 partial def loop (h : IO.FS.Stream) (out : IO.FS.Stream) : IO Unit := do
